@@ -301,7 +301,8 @@ impl<'a, SlotType: 'a + Debug> MetaSubscriber<'a, SlotType> for MMapMetaDynamicS
 
     #[inline(always)]
     fn remaining_elements_count(&self) -> usize {
-        self.meta_mmap_log_topic.mmap_contents.consumer_tail.load(Relaxed) - self.head.load(Relaxed)
+        // `head` is, transiently, one position beyond the tail while a consumer is inside a failed attempt to consume (it advances, then gives the position back)
+        self.meta_mmap_log_topic.mmap_contents.consumer_tail.load(Relaxed).saturating_sub(self.head.load(Relaxed))
     }
 
     unsafe fn peek_remaining(&self) -> Vec<&SlotType> {
@@ -359,7 +360,8 @@ impl<'a, SlotType: 'a + Debug> MetaSubscriber<'a, SlotType> for MMapMetaFixedSub
 
     #[inline(always)]
     fn remaining_elements_count(&self) -> usize {
-        self.fixed_tail - self.head.load(Relaxed)
+        // (same transient overshoot of `head` as in the dynamic subscriber: see there)
+        self.fixed_tail.saturating_sub(self.head.load(Relaxed))
     }
 
     unsafe fn peek_remaining(&self) -> Vec<&SlotType> {
